@@ -223,10 +223,21 @@ def r5(ctx):
     law_self_first(ctx)
 
 
+def _more(name):
+    def run(ctx):
+        from . import more
+
+        getattr(more, name)(ctx)
+
+    run.__name__ = name
+    return run
+
+
 RULES = [
     ("C08.R4", "P1", r4, "the adapted copy keeps defaults and closure cells (by name)"),
     ("C08.R5", "P1", r5, "a rewritten recurse call passes exactly the arguments written, each evaluated once"),
     ("C08.R1", "P1", r1_self_references_found, "all self-references, in globals and cells, at every depth"),
     ("C08.R2", "P1", r2_synthesised_names_bound, "every synthesised name is bound and unique per function"),
     ("C08.R3", "P1", r3_adapts_originals_for_itself, "each function adapts originals for itself"),
+    ("C08.R6", "P1", _more("adaptation_is_per_build"), "each build adapts the originals afresh"),
 ]
